@@ -92,7 +92,76 @@ def prog_delete_orphan(ex, sw, st, idx):
             dict(kind="delete_orphan", hash=h))
 
 
-PROGS = {"put": prog_put, "remove": prog_remove, "get": prog_get, "delete_orphan": prog_delete_orphan}
+def prog_checkpoint(ex, sw, st, idx):
+    """an explicit checkpoint (Cas::checkpoint) running beside a writer"""
+    return ("checkpoint", find_fn(ex, "::checkpoint", "cas::"), [sw.cas_ref], dict(kind="checkpoint"))
+
+
+def expected_after(sw, infos):
+    """the textbook map after the ONE mutating operation of the program (put or remove) -> (present[], hash[]) per universe key"""
+    w = sw.iw
+    muts = [inf for inf in infos if inf["kind"] in ("put", "remove")]
+    if len(muts) != 1:
+        return None
+    op = muts[0]
+    if op["kind"] == "put":
+        return ([z3.Or(w.pk[i], w.keys[i] == op["key"]) for i in range(w.U)],
+                [z3.If(w.keys[i] == op["key"], op["hash"], w.hk[i]) for i in range(w.U)])
+    return ([z3.And(w.pk[i], w.keys[i] != op["key"]) for i in range(w.U)], list(w.hk))
+
+
+def check_checkpoint_consistency(ex, sw, infos, f):
+    """writer || checkpoint, evaluated at the end of a schedule in which every call returned Ok:
+    (1) no lost update: the in-memory map is the start map plus the writer's operation;
+    (2) every snapshot written to index.tmp, labelled v, holds exactly the start map plus the records with version <= v that
+        were in the log when it was written (the writer's record has the next unused version) - so snapshot + later records
+        = acknowledged history; a snapshot labelled v that lacks operation v makes replay skip it for ever"""
+    w = sw.iw
+    exp = expected_after(sw, infos)
+    if exp is None:
+        return None
+    res = f.meta.get("results", {})
+    if not all(isinstance(rv, VEnum) and rv.concrete() == 0 for rv in res.values()):
+        return None
+    post = w.snapshot_of(f, sw.state_ref)
+    bad = z3.Or([z3.Or(post["pk"][i] != exp[0][i], z3.And(exp[0][i], post["hk"][i] != exp[1][i])) for i in range(w.U)])
+    if ex.feasible(f.pc, bad):
+        f.pc.append(bad)
+        return ("lost-update", "every call returned Ok but the in-memory index is not the start map plus the writer's operation "
+                "(an acknowledged write was rolled back, or a removed key came back)")
+    wrote_rec = False
+    for i, e in T._io(f):
+        if e["op"] == "write" and e["path"][0] == "wal" and e["outcome"] == "ok" and T._record_parts(e.get("data", [])) is not None:
+            wrote_rec = True
+        if e["op"] == "write" and e["outcome"] == "ok" and e["path"] == ("index.tmp",):
+            snap = None
+            for d in e.get("data", []):
+                if isinstance(d, tuple) and len(d) == 2 and isinstance(d[1], tuple) and d[1] and d[1][0] == "snapshot":
+                    snap = d[1]
+            if snap is None:
+                continue
+            m, lpv = snap[1], snap[2]
+            vt = lpv.payloads[1][0].t if (isinstance(lpv, VEnum) and 1 in lpv.payloads and lpv.payloads[1]) else None
+            if vt is None or not isinstance(m, VMap):
+                continue
+            covers = z3.And(lpv.disc == 1, vt >= sw.next)      # the label covers the writer's record (version = next unused)
+            for u in range(w.U):
+                mp, mh = z3.Select(m.present, w.keys[u]), z3.Select(m.cols["blob_hash"], w.keys[u])
+                want_p = z3.If(covers, exp[0][u], w.pk[u])
+                want_h = z3.If(covers, exp[1][u], w.hk[u])
+                badm = z3.Or(mp != want_p, z3.And(want_p, mh != want_h))
+                if ex.feasible(f.pc, badm):
+                    f.pc.append(badm)
+                    return ("snapshot-inconsistent", "a snapshot labelled v does not hold exactly the operations with version <= v "
+                            "(its label covers a record whose operation it lacks, or it holds an operation its label does not cover): "
+                            "snapshot + log is no longer the acknowledged history")
+            if not wrote_rec and ex.feasible(f.pc, covers):
+                f.pc.append(covers)
+                return ("snapshot-inconsistent", "a snapshot is labelled with a version whose record is not in the log yet")
+    return None
+
+
+PROGS = {"checkpoint": prog_checkpoint, "put": prog_put, "remove": prog_remove, "get": prog_get, "delete_orphan": prog_delete_orphan}
 
 
 def classify(cex):
@@ -103,6 +172,8 @@ def classify(cex):
         return "read_vs_unlink"
     if v == "stale-intent":
         return "stale-intent"
+    if v in ("lost-update", "snapshot-inconsistent"):
+        return v
     if v in ("inflight-blob-deleted", "inflight-intent-lost"):
         return "inflight-unprotected"
     if v in ("dangling", "not-exact"):
@@ -339,6 +410,8 @@ def ob_schedules(ex, kinds, U=2, HU=2, tags=("C04",), check_reads=True, final_ex
             if what is None and ex.feasible(f.pc, left):
                 f.pc.append(left)
                 what = ("stale-intent", "all operations have returned but pending_intents still holds an intent")
+        if what is None and f.status == "returned" and "checkpoint" in kinds:
+            what = check_checkpoint_consistency(ex, sw, infos, f)
         if what is None and final_exact and f.status == "returned":
             res = f.meta.get("results", {})
             if all(isinstance(rv, VEnum) and rv.concrete() == 0 for rv in res.values()):
